@@ -15,6 +15,10 @@ def check(ctx):
     # have an accepting start state — accepting states are recorded for the closures of transition targets only (C02.d)
     from . import closure_rules
     closure_rules.analyze(ctx, {"C02.d"})
+    # the file of a mode is named from the mode name the caller configured: ScannerMode::new stores the given name, the compiled
+    # mode takes it over unchanged (C06.h)
+    from . import pC06 as _p6
+    _p6.compiled_mode_rules(ctx, "C06.h")
     # the property is observed on scanners obtained through build(): the cache must hand back the configuration's own compilation
     from . import adaptors
     adaptors.analyze(ctx, ("C18.e",))
